@@ -115,8 +115,10 @@ class Gen(object):
         opt = lambda x: x if r.random() > 0.08 * p["w_malformed"] else ABSENT
         if not fl["bound"]:
             if r.random() < 0.85:
-                return msg0(type="bind", appid=opt(r.choice(p["apps"])), side=opt(r.choice(p["sides"])),
-                            cv=r.choice([ABSENT, ABSENT, "v1", "v2"]))
+                cv = r.choice([ABSENT, ABSENT, "v1", "v2"])
+                if r.random() < p.get("badcv", 0):
+                    cv = r.choice(["#[1]", "#{}"])     # a client_version that is not a pair
+                return msg0(type="bind", appid=opt(r.choice(p["apps"])), side=opt(r.choice(p["sides"])), cv=cv)
             ty = r.choice(["ping", "list", "claim", "open", "bogus", ABSENT])
         else:
             w = dict(allocate=1, claim=2, release=1, open=2, add=3, close=2, list=1)
@@ -348,7 +350,141 @@ SCRIPTS = {
 }
 
 
+def run_reuse(rng, drv, profile, tid):
+    """Several generations of clients use the SAME nameplate / client-chosen mailbox id one after the
+    other, while connections of earlier generations linger: a side's `close` / `release` comes from a
+    second connection and the first one just stays, a generation ends by expiry instead of by closing,
+    the server is restarted between generations.  Each incarnation must behave like the first."""
+    p = dict(DEFAULT)
+    p.update(profile)
+    obs_list = []
+
+    def do(e):
+        gen_before = drv.tokens.gen
+        o = drv.step(e)
+        backfill(e, o, gen_before, drv)
+        o["tid"], o["i"] = tid, len(obs_list) + 1
+        obs_list.append(o)
+        return o
+
+    def up(c):
+        return c in drv.protos
+
+    def fresh(c, app, side):
+        if not drv.up:
+            do(ev0("Start"))
+        if up(c):
+            do(ev0("Drop", c=c))
+        do(ev0("Connect", c=c))
+        do(ev0("Cmd", c=c, m=msg0(type="bind", appid=app, side=side, cv=rng.choice([ABSENT, "v1"]))))
+
+    def cmd(c, **kw):
+        if not drv.up or not up(c):
+            return None
+        return do(ev0("Cmd", c=c, m=msg0(**kw)))
+
+    def tick():
+        """the clock moves a little; sweeps happen when due"""
+        if not drv.up:
+            do(ev0("Start"))
+        now = drv.now_ticks()
+        if now >= drv.next_sweep:
+            do(ev0("Sweep"))
+        elif rng.random() < 0.5:
+            do(ev0("Advance", d=min(rng.choice([1, 1, 2, 4]), drv.next_sweep - now)))
+
+    do(ev0("Start"))
+    slots = list(drv.conn_names)
+    assert len(slots) >= 5
+    alt = slots[4]
+    app = p["apps"][0]
+    sides = list(p["sides"])
+    mbox = rng.choice(p["client_mbox"])
+    name = rng.choice(p["names"])
+    moods = ["happy", "lonely", "errory", "scary", ABSENT]
+    rounds = rng.choice([2, 2, 3])
+    off = rng.randrange(len(sides))
+    for r in range(rounds):
+        mains = (slots[0], slots[1]) if r % 2 == 0 else (slots[2], slots[3])
+        pair = [sides[(off + r) % len(sides)], sides[(off + r + 1) % len(sides)]]
+        if rng.random() < 0.2:
+            pair = [sides[off % len(sides)], sides[(off + 1) % len(sides)]]   # the same two again
+        via_np = rng.random() < 0.4
+        told = {}
+        # --- arrive
+        order = [0, 1]
+        rng.shuffle(order)
+        todo = {0: [], 1: []}
+        for k in (0, 1):
+            todo[k] = (["claim"] if via_np else []) + ["open"] + ["add"] * rng.choice([1, 2]) + \
+                      (["release"] if via_np and rng.random() < 0.7 else [])
+            fresh(mains[k], app, pair[k])
+        while todo[0] or todo[1]:
+            k = rng.choice([x for x in (0, 1) if todo[x]])
+            op = todo[k].pop(0)
+            c = mains[k]
+            if op == "claim":
+                o = cmd(c, type="claim", nameplate=name)
+                for f in (o or {}).get("out", []):
+                    if f["type"] == "claimed":
+                        told[k] = f["mailbox"]
+            elif op == "open":
+                i = told.get(k) if via_np else mbox
+                if i is None:
+                    todo[k] = []
+                    continue
+                cmd(c, type="open", mailbox=i)
+            elif op == "add":
+                cmd(c, type="add", phase=rng.choice(["p1", "p2", "p3"]), body=rng.choice(["b1", "b2"]),
+                    id=rng.choice([ABSENT, "i1"]))
+            elif op == "release":
+                if rng.random() < 0.3:
+                    # the release comes from another connection of the side; the first one stays
+                    fresh(alt, app, pair[k])
+                    cmd(alt, type="release", nameplate=name)
+                    do(ev0("Drop", c=alt))
+                else:
+                    cmd(c, type="release", nameplate=rng.choice([ABSENT, name]))
+            if rng.random() < 0.15:
+                tick()
+        # --- leave
+        how = rng.random()
+        cur = told.get(0) or told.get(1) if via_np else mbox
+        leave = [0, 1]
+        rng.shuffle(leave)
+        for k in leave:
+            c = mains[k]
+            y = rng.random()
+            if how < 0.2 and k == leave[1]:
+                # the last one never says close: the generation ends by expiry
+                if up(c):
+                    do(ev0("Drop", c=c))
+            elif y < 0.4 and cur:
+                # close sent on another connection of the same side; the subscribed one lingers
+                fresh(alt, app, pair[k])
+                cmd(alt, type="close", mailbox=cur, mood=rng.choice(moods))
+                if rng.random() < 0.5:
+                    do(ev0("Drop", c=alt))
+            else:
+                cmd(c, type="close", mailbox=rng.choice([ABSENT, cur or ABSENT]), mood=rng.choice(moods))
+                if rng.random() < 0.5 and up(c):
+                    do(ev0("Drop", c=c))
+        if how < 0.2 or rng.random() < 0.15:
+            # everybody goes; the channel (if it still exists) expires
+            quiesce(drv, do)
+        elif rng.random() < 0.2:
+            do(ev0(rng.choice(["Stop", "Crash"])))
+            do(ev0("Start"))
+        elif rng.random() < 0.3:
+            tick()
+    if p["final_quiesce"]:
+        quiesce(drv, do)
+    return obs_list
+
+
 def run_scripted(rng, drv, profile, tid):
+    if profile.get("scripted") == "reuse":
+        return run_reuse(rng, drv, profile, tid)
     p = dict(DEFAULT)
     p.update(profile)
     obs_list = []
